@@ -68,6 +68,16 @@ class Builder:
         a.fields = {fn: self.arr('%s.%s' % (name, fn), dt, n=n) for fn, dt in fields.items()}
         return a
 
+    def arr2_flat(self, name, dtype, shape):
+        """C-contiguous 2-d array given by its flat storage (length n0*n1): a[i, j] = flat[i*n1 + j] and ravel() is flat"""
+        n0, n1 = shape
+        K = z3.Int(name + '.size')
+        self.ctx.assume(K == to_z3(n0) * to_z3(n1))
+        flat = self.arr(name, dtype, n=K)
+        a = Arr((n0, n1), lambda ix: flat.f((simp(to_z3(ix[0]) * to_z3(n1) + to_z3(ix[1])),)), dtype, label=name)
+        a.flat_backing = flat
+        return a
+
     def arr2(self, name, dtype='float64', shape=None):
         if shape is None:
             n0, n1 = z3.Int(name + '.n0'), z3.Int(name + '.n1')
